@@ -5,7 +5,11 @@ once per configuration (m None / given, real-uncoupled / complex-uncoupled / cou
 `c02_sem.PathEval`, which follows the helpers of the class and of the module, decides every test by its value and records every store
 into d, v, a as a cell (array identity, evaluated index, stored value).  The rules read that trace; how the source spells the path
 (temporaries, renamed locals, guard clauses, swapped arms, extracted or inlined helpers, module constants, np.matmul / np.negative,
-keyword arguments) is not visible in it."""
+keyword arguments, loops <-> comprehensions, dispatch through a bound-method variable, set algebra on the option string) is not visible in it.
+
+A test the configuration cannot decide (a test on solver state such as "is the full conjugate set present", inlined from SolveUnc._addconj) is
+taken both ways (`Run.paths`); the configuration is usable when the stores into d, v, a and the returned value are the same on every
+combination.  R9 reads the guard of the call of `addconj` wherever it lives, and the condition under which fsolve reaches it."""
 from __future__ import annotations
 
 import ast
@@ -13,7 +17,7 @@ import ast
 from . import e2_formula as F
 from . import ode_spaces as O
 from .core import AnchorError, Unsupported
-from .e1_srcmodel import dotted, ancestors
+from .e1_srcmodel import dotted, ancestors, walk_no_nested
 from .e2_eval import is_unknown, need
 from .e3_spaces import Arr, Idx
 from .sem import unfn
@@ -1137,7 +1141,6 @@ def _state_guards(ctx, rel, cls, target, depth=0):
         for st in ast.walk(f):        # a local alias of the function
             if isinstance(st, ast.Assign) and dotted(st.value) in local:
                 local |= {t.id for t in st.targets if isinstance(t, ast.Name)}
-        from .e1_srcmodel import walk_no_nested
         if not any(isinstance(x, ast.Call) and dotted(x.func) in local for x in walk_no_nested(f)):
             continue
         g = _acts_when(ctx, f, target)
@@ -1178,8 +1181,19 @@ def r9_conjugate_set_guards(ctx):
     if eq is None:
         return
     X, Y = eq[1], eq[2]
+
+    def on_state(*vals):
+        """the comparison is written over the solver's own state (self....), not over a parameter of a helper: comparable between functions"""
+        return all(n.startswith("self.") or n in ("pi", "I") for v in vals for n in _symbols(v))
+    if not on_state(X, Y):
+        ctx.error("delconj: the sizes its guard compares are read from a parameter, not from the solver's state", gds[0][1], f"Eq({X!r}, {Y!r})")
+        return
     for ga, fa in gas:
         opa, P, Q = ga[0], ga[1], ga[2]
+        if not on_state(P, Q):
+            # a helper that is handed the state object: its guard is checked where fsolve reaches it, below
+            ctx.ok(f"{fa.name}: addconj is applied under one comparison of its arguments (compared with delconj's on the path from fsolve)", fa, nontrivial=False)
+            continue
         same_pair = (P.equals(X) and Q.equals(Y)) or (P.equals(Y) and Q.equals(X))
         ok = same_pair and opa in ("NotEq", "Gt", "Lt")
         ctx.check(ok, f"{fa.name}: addconj is applied in every state in which delconj is not - its guard negates delconj's equality between the same two sizes", fa,
@@ -1267,7 +1281,7 @@ RULES = [
     ("C02-R5", r5_solvepsd, 8),
     ("C02-R7", r7_every_force_counts, 2),
     ("C02-R8", r8_structure_assumption, 2),
-    ("C02-R9", r9_conjugate_set_guards, 4),
+    ("C02-R9", r9_conjugate_set_guards, 6),
 ]
 LEVEL = "other"
 EXPLANATION = ("Static: the public frequency-domain entry points are evaluated on symbols once per configuration (helpers followed, tests decided by value); "
@@ -1283,8 +1297,9 @@ MANIFEST = {
             "(R4) partition-space typing of every value stored on the frequency-domain paths in both SolveUnc modes; (R5) solvepsd formula, None entries and trapezoid; "
             "(R6) paired advanced indices; (R7) every force reaches the PSD accumulation (must-pass-through in the "
             "force loop: only a vanishing force PSD may skip an iteration, because the direct term drmf[:, i] bypasses the equations); (R8) a structure "
-            "assumption handed to the solver of the dynamic stiffness must be derived from every matrix of H; (R9) the conditions under which SolveUnc._addconj / "
-            "_delconj act are complementary (the full conjugate set is restored before every frequency solve unless it is already full). "
+            "assumption handed to the solver of the dynamic stiffness must be derived from every matrix of H; (R9) the conditions under which addconj / delconj are applied (in SolveUnc._addconj / "
+            "_delconj or wherever those calls live) are complementary, also on the whole path from fsolve to the call (the full conjugate set is "
+            "restored before every frequency solve unless it is already full). "
             "Not decided: accuracy of the complex-mode path, singular H, library solves.",
     "note": "Trusted: CPython ast; verifier/e2_formula.py (commutative normal forms: matrix products are abstracted to scalar products), verifier/c02_sem.py "
             "(path evaluator), verifier/c02_types.py with the attribute table of verifier/ode_spaces.py (read from _BaseODE, one reason per line).",
